@@ -6,6 +6,7 @@ mod hist;
 mod raw;
 mod sched;
 mod seq;
+mod topic;
 
 use std::collections::HashMap;
 use std::io::Write;
@@ -47,6 +48,7 @@ fn main() {
   match cmd.as_str() {
     "chan-seq" => chan_seq(&args),
     "chan-sched" => chan_sched(&args),
+    "topic-seq" => topic_seq(&args),
     _ => {
       eprintln!("usage: fv <chan-seq> [--key value]...");
       std::process::exit(2);
@@ -178,4 +180,39 @@ fn chan_sched(a: &Args) {
   }
   w.flush().unwrap();
   println!("{}", serde_json::json!({"histories": n, "blocked": blocked, "stuck": stuck, "step_limit": step_limit, "leaked_threads": leaked, "steps": steps}));
+}
+
+fn topic_seq(a: &Args) {
+  let caps: Vec<usize> = a.list("caps", "1,2,3").iter().map(|s| s.parse().unwrap()).collect();
+  let programs = a.num("programs", 20);
+  let ops = a.num("ops", 60) as usize;
+  let seed = a.num("seed", 1);
+  let kf = a.list("kf", "");
+  let out = a.get("out", "/dev/stdout");
+  let mut w = std::io::BufWriter::new(std::fs::File::create(&out).expect("create out"));
+  let (mut n_hist, mut n_hung, mut n_panic) = (0u64, 0u64, 0u64);
+  for p in 0..programs {
+    let cfg = topic::Cfg { cap: caps[(p as usize) % caps.len()], ops, seed: seed.wrapping_mul(7_000_003).wrapping_add(p), is_async: p % 2 == 1, kf: kf.clone() };
+    let gen_ = hist::begin();
+    let r = with_watchdog(move || topic::run_program(&cfg), Duration::from_secs(10), gen_);
+    let mut recs = hist::take();
+    match r {
+      Ok(Ok(())) => {}
+      Ok(Err(msg)) => {
+        n_panic += 1;
+        recs.push(serde_json::json!({"k":"panic","msg":msg}).to_string());
+      }
+      Err(()) => {
+        n_hung += 1;
+        recs.push(serde_json::json!({"k":"hung"}).to_string());
+      }
+    }
+    hist::begin();
+    for r in recs {
+      writeln!(w, "{r}").unwrap();
+    }
+    n_hist += 1;
+  }
+  w.flush().unwrap();
+  println!("{}", serde_json::json!({"histories": n_hist, "hung": n_hung, "panics": n_panic}));
 }
